@@ -361,51 +361,13 @@ def d18_5(ctx):
     ctx.check(good, ckey(drv.key + "._msg_start"), ms, "4B 02 20 67 24 01 | 07 vendor serial", f"Execute-PCCC header is {show(lay)}", layout=show(lay))
 
 
-@rule(P, "D18.6", "T-LAYOUT", floor=3)
+@rule(P, "D18.6", "T-WITNESS", floor=3)
 def d18_6(ctx):
-    """writeable_value = mask + data (bit: UINT(2**bit), data = mask or zeros; word: FFFF); get_bit = (v & (1 << i)) != 0."""
-    fn = ctx.model.func(f"{SLC}:writeable_value")
-    f = fn.node
-    rets = [r for r in walk(f) if isinstance(r, ast.Return) and isinstance(r.value, ast.BinOp)]
-    good = len(rets) == 1 and isinstance(rets[0].value.op, ast.Add) and atom_name(rets[0].value.left) == "bit_mask" and atom_name(rets[0].value.right) == "_value"
-    ctx.check(good, ckey(fn, "order"), f, "returns mask followed by data", "masked-write payload is not mask + data")
-    mask = [n for n in walk(f) if isinstance(n, ast.Assign) and atom_name(n.targets[0]) == "bit_mask" and isinstance(n.value, ast.IfExp)]
-    good = False
-    if mask:
-        e = mask[0].value
-        b = e.body
-        good = atom_name(e.test) == "bit_field" and isinstance(b, ast.Call) and attr_path(b.func) == "UINT.encode" and isinstance(b.args[0], ast.BinOp) and ((isinstance(b.args[0].op, ast.Pow) and ctx.folder.eval(b.args[0].left, fn.module) == 2) or (isinstance(b.args[0].op, ast.LShift) and ctx.folder.eval(b.args[0].left, fn.module) == 1)) and atom_name(b.args[0].right) == "bit_position" and ctx.folder.eval(e.orelse, fn.module) == b"\xff\xff"
-    ctx.check(good, ckey(fn, "mask"), mask[0] if mask else f, "bit writes mask UINT(2**bit); word writes mask FFFF", "the write mask is not UINT(2**bit) for bit addresses / FFFF for words")
-    bitval = [n for n in walk(f) if isinstance(n, ast.Assign) and atom_name(n.targets[0]) == "_value" and isinstance(n.value, ast.IfExp) and atom_name(n.value.test) == "value"]
-    good = len(bitval) == 1 and atom_name(bitval[0].value.body) == "bit_mask" and ctx.folder.eval(bitval[0].value.orelse, fn.module) == b"\x00\x00"
-    ctx.check(good, ckey(fn, "bit-data"), bitval[0] if bitval else f, "bit data = mask when true, 0000 when false", "a bit write does not send the mask / zeros as data (other bits of the word change)")
-    # the full-word path (mask FFFF + packed value) inside a bit-field write is for timer/counter PRE/ACC only
-    from ..boolexpr import NotBoolean, equivalent, make_fold, to_formula, show as fshow
-    wp = [n for n in walk(f) if isinstance(n, ast.If) and any(isinstance(s_, ast.Assign) and atom_name(s_.targets[0]) == "bit_mask" and ctx.folder.eval(s_.value, fn.module) == b"\xff\xff" for s_ in n.body)]
-    ok = False
-    facts = {}
-    if len(wp) == 1:
-        try:
-            got = to_formula(wp[0].test, make_fold(ctx.folder, fn.module))
-            ct = ctx.spec("pccc")["timer_counter_words"]
-            ft = "tag['file_type']"
-            want = ("and", [("or", [("atom", (ft, "==", "C")), ("atom", (ft, "==", "T"))]), ("or", [("atom", ("bit_position", "==", ct["PRE"])), ("atom", ("bit_position", "==", ct["ACC"]))])])
-            ok, cex = equivalent(got, want)
-            facts = {"condition": fshow(got), "counterexample": cex}
-        except NotBoolean as err:
-            facts = {"condition": src(wp[0].test), "error": str(err)}
-    ctx.check(ok, ckey(fn, "word-path"), wp[0] if wp else f, "whole-word masked write only for T/C files with sub-element PRE or ACC", f"the condition selecting the whole-word write (mask FFFF) is not `file type in (T, C) and sub-element in (PRE, ACC)`: {facts} - a bit write outside it overwrites the whole word", **{k: str(v) for k, v in facts.items()})
-    bp = [n for n in walk(f) if isinstance(n, ast.Assign) and atom_name(n.targets[0]) == "bit_position"]
-    good = len(bp) == 1 and "tag.get('sub_element')" in src(bp[0].value).replace('"', "'") and "bit_field" in src(bp[0].value)
-    ctx.check(good, ckey(fn, "bit-position"), bp[0] if bp else f, "bit position comes from the record's sub_element", "bit position is not taken from the address record's sub_element")
-    gb = ctx.model.func(f"{SLC}:get_bit")
-    rets = [r for r in walk(gb.node) if isinstance(r, ast.Return)]
-    v, i = [a.arg for a in gb.node.args.args]
-    good = False
-    if len(rets) == 1 and isinstance(rets[0].value, ast.Compare) and isinstance(rets[0].value.ops[0], ast.NotEq) and ctx.folder.eval(rets[0].value.comparators[0], gb.module) == 0:
-        l = rets[0].value.left
-        good = isinstance(l, ast.BinOp) and isinstance(l.op, ast.BitAnd) and atom_name(l.left) == v and isinstance(l.right, ast.BinOp) and isinstance(l.right.op, ast.LShift) and ctx.folder.eval(l.right.left, gb.module) == 1 and atom_name(l.right.right) == i
-    ctx.check(good, ckey(gb), gb.node, "(value & (1 << idx)) != 0", "get_bit is not (value & (1 << idx)) != 0")
+    """writeable_value = mask + data: a bit write masks UINT(1 << bit) and sends the mask (true) or zeros (false) as data, so only
+    that bit changes; a word write masks FFFF; the whole-word path inside a sub-element address is for timer / counter PRE and
+    ACC only; get_bit = (value & (1 << idx)) != 0.  Decided by folding both helpers on witness records x values (D18.12),
+    including bits 1 and 2 of an integer word (which share their number with the PRE / ACC word indices) and timer status bits."""
+    d18_12(ctx)
 
 
 @rule(P, "D18.7", "T-SPEC", floor=3)
@@ -433,25 +395,9 @@ def d18_7(ctx):
     ctx.check(idx == derived_status == sp["reply"]["status_index"], ckey(rs, "status-index"), rs.node, f"PCCC STS byte at {derived_status}", f"request_status reads byte {idx!r}; the STS byte is at {derived_status}", got=idx)
     ok_ret = any(isinstance(n, ast.If) and cmp_norm(n.test) is not None and any(isinstance(r, ast.Return) and isinstance(r.value, ast.Constant) and r.value.value is None for r in n.body) for n in walk(rs.node))
     ctx.check(ok_ret, ckey(rs, "success"), rs.node, "status 0 -> None (success), anything else -> text", "request_status no longer maps only status 0 to success")
-    pr = ctx.model.func(f"{SLC}:_parse_read_reply")
-    ct = ctx.folder.module_value(PCCC, "PCCC_CT")
-    found = {}
-    for n in walk(pr.node):
-        if isinstance(n, ast.If) and isinstance(n.test, ast.Compare) and atom_name(n.test.left) == "bit_position":
-            k = src(n.test.comparators[0]).replace('"', "'")
-            for c in walk(n):
-                if isinstance(c, ast.Subscript) and atom_name(c.value) == "data" and isinstance(c.slice, ast.Slice):
-                    lo = lin(c.slice.lower, subst={"new_value": Lin(0)})
-                    hi = lin(c.slice.upper, subst={"new_value": Lin(0)})
-                    found[k] = (lo.const if lo and lo.is_const() else None, repr(hi))
-                    break
-            # only first-level
-    tc = [n for n in walk(pr.node) if isinstance(n, ast.If) and "file_type" in src(n.test) and any(isinstance(x, ast.If) and "bit_position" in src(x.test) for x in n.body)]
-    tc_ok = len(tc) == 1 and isinstance(tc[0].test, ast.Compare) and isinstance(tc[0].test.ops[0], ast.In) and set(ctx.folder.eval(tc[0].test.comparators[0], pr.module) or ()) == {"T", "C"}
-    ctx.check(tc_ok, ckey(pr, "pre-acc-files"), tc[0] if tc else pr.node, "PRE/ACC words are extracted only for T and C files", "the PRE/ACC word extraction is no longer restricted to timer/counter files")
-    want = {f"PCCC_CT['{k}']": 2 * v for k, v in sp["timer_counter_words"].items()}
-    good = all(found.get(k, (None,))[0] == v for k, v in want.items()) and isinstance(ct, dict)
-    ctx.check(good, ckey(pr, "pre-acc"), pr.node, "PRE at byte 2, ACC at byte 4 of the element", f"PRE/ACC are read at {found}; words 1 and 2 of the element are bytes 2 and 4", found={k: list(v) for k, v in found.items()})
+    # PRE / ACC are words 1 and 2 of a timer / counter element, extracted only for T and C files: decided by folding
+    # _parse_read_reply on witness records x data (D18.12) - an earlier form matched the if-ladder and alarmed on a table lookup
+    d18_12(ctx)
 
 
 @rule(P, "D18.8", "T-DOM", floor=2)
@@ -988,6 +934,8 @@ def d18_12(ctx):
         ("N7:0/15", rec("N", 7, 0, sub="15"), w16(-32768), True), ("I:1.0/3", rec("I", 1, 1, sub="3", pos=0), w16(8), True),
         ("T4:0.PRE", rec("T", 4, 0, sub=ct["PRE"]), w16(0x2000, 100, 7), 100), ("T4:0.ACC", rec("T", 4, 0, sub=ct["ACC"]), w16(0x2000, 100, 7), 7),
         ("T4:0.DN set", rec("T", 4, 0, sub=13), w16(0x2000, 100, 7), True), ("C5:1.CU clear", rec("C", 5, 1, sub=15), w16(0x2000, 100, 7), False),
+        ("N7:0/1 (a bit, not the PRE word)", rec("N", 7, 0, sub="1"), w16(0x0002, 100, 7), True), ("N7:0/2 clear (a bit, not the ACC word)", rec("N", 7, 0, sub="2"), w16(0x0002, 100, 7), False),
+        ("B3:0/1 (a bit, not the PRE word)", rec("B", 3, 0, sub="1"), w16(0x0000, 100, 7), False),
         ("F8:0", rec("F", 8, 0), _st.pack("<f", 1.5), 1.5), ("L9:0", rec("L", 9, 0), _st.pack("<i", 70000), 70000), ("F8:0{2}", rec("F", 8, 0, count=2), _st.pack("<ff", 0.5, -2.0), [0.5, -2.0]),
     ]
     a_tag, a_data = [a.arg for a in pr.node.args.args][:2]
@@ -1004,6 +952,8 @@ def d18_12(ctx):
         ("N7:0 = 5", rec("N", 7, 0), 5, b"\xff\xff" + w16(5)), ("N7:0 = -1", rec("N", 7, 0), -1, b"\xff\xff" + w16(-1)),
         ("N7:0/5 = True", rec("N", 7, 0, sub="5"), True, w16(0x20) + w16(0x20)), ("N7:0/5 = False", rec("N", 7, 0, sub="5"), False, w16(0x20) + w16(0)),
         ("B3/16 = True", rec("B", 3, 1, sub=0), True, w16(1) + w16(1)), ("N7:0/15 = True", rec("N", 7, 0, sub="15"), True, b"\x00\x80\x00\x80"),
+        ("N7:0/1 = True (bit 1, not a whole-word write)", rec("N", 7, 0, sub="1"), True, w16(2) + w16(2)), ("N7:0/2 = False (bit 2, not a whole-word write)", rec("N", 7, 0, sub="2"), False, w16(4) + w16(0)),
+        ("T4:0.DN = True (a status bit of a timer)", rec("T", 4, 0, sub=13), True, w16(0x2000) + w16(0x2000)), ("C5:1.CU = False", rec("C", 5, 1, sub=15), False, b"\x00\x80" + w16(0)),
         ("T4:0.PRE = 100", rec("T", 4, 0, sub=ct["PRE"]), 100, b"\xff\xff" + w16(100)), ("T4:0.ACC = 7", rec("T", 4, 0, sub=ct["ACC"]), 7, b"\xff\xff" + w16(7)),
         ("N7:0{2} = [1, 2]", rec("N", 7, 0, count=2), [1, 2], b"\xff\xff" + w16(1, 2)), ("N7:0{2} = [1, 2, 3]", rec("N", 7, 0, count=2), [1, 2, 3], b"\xff\xff" + w16(1, 2)),
         ("N7:0{3} = [1, 2]", rec("N", 7, 0, count=3), [1, 2], "RequestError"), ("F8:0 = 1.5", rec("F", 8, 0), 1.5, b"\xff\xff" + _st.pack("<f", 1.5)),
@@ -1022,6 +972,17 @@ def d18_12(ctx):
             got = bytes(got)
         ctx.check(got == want, key, wv.node, f"{label} -> {want.hex() if isinstance(want, bytes) else want}",
                   f"masked-write payload for {label} is {got.hex() if isinstance(got, bytes) else got!r}, expected {want.hex() if isinstance(want, bytes) else want} (mask + data): another bit / word is written or a valid value is refused", witness=label)
+
+
+    gb = ctx.model.func(f"{SLC}:get_bit")
+    v_, i_ = [a.arg for a in gb.node.args.args][:2]
+    for value, idx, want in ((0b1000, 3, True), (0b0111, 3, False), (0x8000, 15, True), (1, 0, True), (0xFFFE, 0, False), (-32768, 15, True)):
+        kind, res = run_function(ctx, gb.module, gb.node, {v_: value, i_: idx})
+        key = ckey(gb, f"witness:{value:#x}:{idx}")
+        if kind == "unknown":
+            ctx.undecided(key, gb.node, f"get_bit not foldable: {res}")
+        else:
+            ctx.check(kind == "return" and res is want, key, gb.node, f"bit {idx} of {value:#x} is {want}", f"get_bit({value:#x}, {idx}) gives {kind} {res!r}; expected {want}")
 
 
 @rule(P, "D18.13", "T-WITNESS", floor=10)
